@@ -191,8 +191,14 @@ pub(crate) fn collect_and_prepare<S: IndexedFull>(
             .find_map(Result::ok)
     };
 
+    // `conflict`: the existing entry is located at a path of the snapshot, but has another type
+    // (or the node is a special file which is always newly created). It must be removed in any
+    // case - the delete option only determines what happens to *additional* entries.
     let mut process_existing =
-        |walker: &mut walkdir::IntoIter, entry: &DirEntry| -> RusticResult<Option<DirEntry>> {
+        |walker: &mut walkdir::IntoIter,
+         entry: &DirEntry,
+         conflict: bool|
+         -> RusticResult<Option<DirEntry>> {
             if entry.depth() == 0 {
                 // don't process the root dir which should be existing
                 return Ok(next_entry(walker));
@@ -205,7 +211,7 @@ pub(crate) fn collect_and_prepare<S: IndexedFull>(
             } else {
                 stats.files.additional += 1;
             }
-            match (opts.delete, dry_run, is_dir) {
+            match (opts.delete || conflict, dry_run, is_dir) {
                 (true, true, true) => {
                     info!(
                         "would have removed the additional dir: {}",
@@ -318,12 +324,12 @@ pub(crate) fn collect_and_prepare<S: IndexedFull>(
             (None, None) => break,
 
             (Some(destination), None) => {
-                next_dst = process_existing(&mut walker, destination)?;
+                next_dst = process_existing(&mut walker, destination, false)?;
             }
             (Some(destination), Some((path, node))) => {
                 match destination.path().cmp(&dest.path(path)) {
                     Ordering::Less => {
-                        next_dst = process_existing(&mut walker, destination)?;
+                        next_dst = process_existing(&mut walker, destination, false)?;
                     }
                     Ordering::Equal => {
                         // process existing node
@@ -332,11 +338,13 @@ pub(crate) fn collect_and_prepare<S: IndexedFull>(
                             || node.is_special()
                         {
                             // if types do not match, first remove the existing file
-                            next_dst = process_existing(&mut walker, destination)?;
+                            next_dst = process_existing(&mut walker, destination, true)?;
+                            // ... and treat the node as not existing
+                            process_node(path, node, dry_run)?;
                         } else {
                             next_dst = next_entry(&mut walker);
+                            process_node(path, node, true)?;
                         }
-                        process_node(path, node, true)?;
                         next_node = node_streamer.next().transpose()?;
                     }
                     Ordering::Greater => {
